@@ -1,53 +1,1 @@
-/-
-  C03 — hunks that fit are found, with the least fuzz, at the stated place.
--/
-import PatchModel.Spec.Script
-import PatchModel.Lemmas.Locate
-namespace PatchModel.C03
-open PatchModel
-
-/-- if any admissible placement exists at or after `min_line`, the hunk is found, with fuzz no larger -/
-theorem locate_complete (file : List Line) (h : Hunk) (iw : Bool) (offset maxFuzz : Int) (minLine : Nat)
-    (p f : Nat) (hwf : h.WF) (hc : h.old.count ≠ 0) (hp : minLine ≤ p)
-    (hadm : admissibleB file h iw maxFuzz p f = true) :
-    ∃ loc, locateHunk file h iw offset maxFuzz minLine = some loc ∧ loc.fuzz ≤ (f : Int) := by
-  have hlt := admissible_lt_length file h iw maxFuzz p f hwf hc hadm
-  obtain ⟨loc, hloc⟩ := locateHunk_complete file h iw offset maxFuzz minLine p f hc hp hlt hadm
-  obtain ⟨p0, f0, e, _, _, _, hmin⟩ := locateHunk_some file h iw offset maxFuzz minLine loc hc hloc
-  refine ⟨loc, hloc, ?_⟩
-  subst e
-  have := hmin p f hp hlt hadm
-  simp only
-  omega
-
-/-- the fuzz used is the smallest at which any placement exists -/
-theorem locate_least_fuzz (file : List Line) (h : Hunk) (iw : Bool) (offset maxFuzz : Int) (minLine : Nat)
-    (loc : Location) (hloc : locateHunk file h iw offset maxFuzz minLine = some loc) (hwf : h.WF) (hc : h.old.count ≠ 0) :
-    ∀ p f : Nat, minLine ≤ p → admissibleB file h iw maxFuzz p f = true → loc.fuzz ≤ (f : Int) := by
-  intro p f hp hadm
-  have hlt := admissible_lt_length file h iw maxFuzz p f hwf hc hadm
-  obtain ⟨p0, f0, e, _, _, _, hmin⟩ := locateHunk_some file h iw offset maxFuzz minLine loc hc hloc
-  subst e
-  have := hmin p f hp hlt hadm
-  simp only
-  omega
-
-/-- a hunk whose text sits exactly at its stated line (plus the accumulated offset) is applied exactly there -/
-theorem locate_exact (file : List Line) (h : Hunk) (iw : Bool) (offset maxFuzz : Int) (minLine : Nat) (g : Nat)
-    (hwf : h.WF) (hc : h.old.count ≠ 0) (hg : expectedLine h - 1 + offset = (g : Int)) (hm : minLine ≤ g)
-    (hadm : admissibleB file h iw maxFuzz g 0 = true) :
-    locateHunk file h iw offset maxFuzz minLine = some ⟨g, 0, 0⟩ :=
-  locateHunk_exact file h iw offset maxFuzz minLine g hc hg hm
-    (admissible_lt_length file h iw maxFuzz g 0 hwf hc hadm) hadm
-
-/-- an insertion that carries no context goes exactly to its stated line (the exclusion is known finding D2) -/
-theorem locate_insertion_exact (file : List Line) (h : Hunk) (iw : Bool) (offset maxFuzz : Int) (minLine : Nat) (g : Nat)
-    (hc : h.old.count = 0) (hg : expectedLine h - 1 + offset = (g : Int)) (hm : minLine ≤ g) (hle : g ≤ file.length)
-    (hD2 : ¬ (h.old.start = 0 ∧ file ≠ [])) :
-    locateHunk file h iw offset maxFuzz minLine = some ⟨g, 0, 0⟩ := by
-  unfold locateHunk
-  simp only [hc, if_true, hD2, if_false, hg]
-  have : ¬ ((g : Int) < (minLine : Int) ∨ (g : Int) > (file.length : Int)) := by omega
-  rw [if_neg this]
-
-end PatchModel.C03
+import PatchModel.Props.C03
